@@ -711,6 +711,10 @@ func genC13CLI(t *rapid.T) CLICrashCase {
 	case 2:
 		flags = append(flags, "-setkeys=id")
 	}
+	if gen.Chance(t, "outFlag", 25) {
+		// an output file that can or cannot be written
+		flags = append(flags, "-o="+gen.Pick(t, "outPath", []string{"out.txt", "no/such/dir/out.txt", ".", "f1/out.txt", ""}))
+	}
 	switch mode {
 	case "diff":
 		if gen.Chance(t, "format", 40) {
